@@ -605,59 +605,6 @@ func c06Mix(aliasCheck bool) {
 // ======================================================================================================
 // C08: Unmarshal is total on arbitrary bytes (no panic, allocation in proportion to the input)
 
-func pbC08(m pbMsg, nmax int) {
-	p := nondetBytes("p", nmax)
-	verifAllocLimit(8*len(p) + 64)
-	err := m.Unmarshal(p)
-	if err == nil {
-		// differential clause, decided by the real reference runtime on the witness of every accepting path
-		verifAssertAgreesIfRefAccepts(m, p, "native: both the generated Unmarshal and the reference runtime accept the input, but decode different messages")
-	}
-	verifReach("end")
-}
-
-// corrupted length prefixes: the key of a field (numbers 1..6 cover O/R/U of every kind message and the fields of the
-// composites) with the length-delimited wire type, then an arbitrary - possibly over-long or overflowing - varint
-// as its declared length, then a short arbitrary tail
-func pbC08Len(m pbMsg) {
-	num := nondetInt("field")
-	verifAssume(num >= 1)
-	verifAssume(num <= 6)
-	num = verifConcretize(num)
-	lp := nondetBytes("len", 10)
-	if verifTier() == 0 {
-		verifAssume(len(lp) <= 2 || len(lp) >= 9)
-	}
-	lp = lp[:verifConcretize(len(lp))]
-	// one varint: continuation bits on all bytes but the last (the tenth byte is arbitrary: overflowing and
-	// unterminated prefixes included)
-	for i := range lp {
-		if i < len(lp)-1 {
-			verifAssume(lp[i] >= 0x80)
-		} else if i < 9 {
-			verifAssume(lp[i] < 0x80)
-		}
-	}
-	tail := nondetBytes("tail", 1+2*verifTier())
-	tail = tail[:verifConcretize(len(tail))]
-	p := protowire.AppendTag(make([]byte, 0, 32), protowire.Number(num), protowire.BytesType)
-	p = append(p, lp...)
-	p = append(p, tail...)
-	verifAllocLimit(8*len(p) + 64)
-	err := m.Unmarshal(p)
-	if err == nil {
-		verifAssertAgreesIfRefAccepts(m, p, "native: both the generated Unmarshal and the reference runtime accept the input, but decode different messages")
-	}
-	verifReach("end")
-}
-
-func c08N(q, t int) int {
-	if verifTier() == 1 {
-		return t
-	}
-	return q
-}
-
 func H_C08_SInt32()   { pbC08(&SInt32{}, c08N(5, 7)) }
 func H_C08_SSint64()  { pbC08(&SSint64{}, c08N(5, 7)) }
 func H_C08_SFixed32() { pbC08(&SFixed32{}, c08N(6, 8)) }
